@@ -17,6 +17,36 @@ EdgeList2 == {<<e[1], e[2], W2(e[1], e[2])>> : e \in E2}
 
 LayerWeights == {<<1, 1>>, <<2, 3>>}
 LayerGammas == {<< <<1, 1>>, <<1, 1>> >>, << <<1, 2>>, <<2, 1>> >>}
+\* a layer weight of zero (the layer does not count) and a NEGATIVE layer weight: the layer then
+\* holds non-positive edge weights of the same magnitudes W2 (the harness negates them; "QMultiplex
+\* will panic if the graph has any layer weight-scaled edge with negative edge weight") and A* of
+\* the documented formula are the magnitudes: Q_layer = w * (the bracketed sum on magnitudes)
+SignedWeights == {<<3, 0>>, <<2, 0 - 1>>}
+SignedGammas == {<< <<1, 2>>, <<2, 1>> >>}
+
+\* the documented refusal: some edge weight times its layer weight is negative.  neg2: layer 2 is
+\* built with negated weights.  (Both layers have an edge when MCheck emits.)
+Refused(w, neg2) == w[1] < 0 \/ (w[2] > 0 /\ neg2) \/ (w[2] < 0 /\ ~neg2)
+Contract == {[w |-> w, neg2 |-> b, panic |-> Refused(w, b)] :
+               w \in {<<1, 1>>, <<1, 0 - 1>>, <<1, 0>>, <<0 - 2, 1>>}, b \in BOOLEAN}
+
+\* argument lengths (0 stands for nil; the graph has 2 layers): "If weights is nil layers are equally
+\* weighted, otherwise the length of weights must equal the number of layers. If resolutions is nil
+\* ... otherwise either a single element slice ... or the length of resolutions must equal the number
+\* of layers" - every other combination must be refused
+Lengths == {[nw |-> a, ng |-> b, panic |-> ~(a \in {0, 2} /\ b \in {0, 1, 2})] : a \in 0 .. 3, b \in 0 .. 3}
+
+\* NewUndirectedLayers / NewDirectedLayers "ensuring there is a match between IDs for each layer":
+\* a second layer on the node set (V minus its first `drop` nodes) plus `extra` new nodes is an error
+\* iff that set differs from V (equal size, different ids included); k copies of one layer have Depth k
+Layer2Nodes(x) == (V \ (1 .. x.drop)) \cup (N + 1 .. N + x.extra)
+NodeSets == {[extra |-> x.extra, drop |-> x.drop, err |-> Layer2Nodes(x) # V] :
+               x \in {[extra |-> 0, drop |-> 0], [extra |-> 1, drop |-> 0], [extra |-> 1, drop |-> 1],
+                      [extra |-> 0, drop |-> 1]}}
+
+\* the community-wise integer forms the trace specifications use (Reduced.tla)
+Red == INSTANCE Reduced
+Mat(F(_, _)) == [i \in V |-> [j \in V |-> F(i, j)]]
 
 \* the derived quantities of one layer: <<a, ki, ko, m>>
 LayerOf(F(_, _)) ==
@@ -30,7 +60,10 @@ QL(c, w, g, L) == QLayerV(V, c, w, g, L[1], L[2], L[3], L[4])
 MRecord(L1, L2) ==
   [k |-> "qm", n |-> N, dir |-> Directed, wtd |-> Weighted, l1 |-> EdgeList, l2 |-> EdgeList2,
    qs |-> {[c |-> c, w |-> w, g |-> g, q |-> <<QL(c, w[1], g[1], L1), QL(c, w[2], g[2], L2)>>]
-             : c \in Labelings, w \in LayerWeights, g \in LayerGammas}]
+             : c \in Labelings, w \in LayerWeights, g \in LayerGammas}
+          \cup {[c |-> c, w |-> w, g |-> g, q |-> <<QL(c, w[1], g[1], L1), QL(c, w[2], g[2], L2)>>]
+             : c \in Labelings, w \in SignedWeights, g \in SignedGammas},
+   contract |-> Contract, lengths |-> Lengths, nodesets |-> NodeSets, depths |-> {0, 1, 2, 3}]
 
 MCheck == (E # {} /\ E2 # {}) =>
   With(LayerOf(A), LAMBDA L1 :
@@ -40,5 +73,13 @@ MCheck == (E # {} /\ E2 # {}) =>
           /\ QL(c, w, g, L1) = RMul(RInt(w * L1[4]), QLabel(c, g, L1[1], L1[2], L1[3], L1[4]))
           /\ QL(c, w, g, L2) = RMul(RInt(w * L2[4]), QLabel(c, g, L2[1], L2[2], L2[3], L2[4]))
     /\ QL(AllInOne, 1, <<1, 1>>, L1) = RZero /\ QL(AllInOne, 2, <<1, 1>>, L2) = RZero
+    \* Reduced.tla's forms (sums over the communities, layer data from a matrix) are the same numbers,
+    \* also for a negative layer weight on a matrix of non-positive weights
+    /\ With(Red!LayerData(Mat(A), N), LAMBDA D1 :
+       With(Red!LayerData([i \in V |-> [j \in V |-> 0 - A2(i, j)]], N), LAMBDA D2 :
+         \A c \in Labelings, g \in Gammas :
+            /\ Red!LayerQ(PartOf(c), 2, g, D1) = QL(c, 2, g, L1)
+            /\ Red!LayerQ(PartOf(c), 0 - 1, g, D2) = QL(c, 0 - 1, g, L2)
+            /\ Red!SingleQ(PartOf(c), g, D1) = QLabel(c, g, L1[1], L1[2], L1[3], L1[4])))
     /\ Emit => PrintT(ToJson(MRecord(L1, L2)))))
 =============================================================================
